@@ -2,7 +2,7 @@
 import random
 
 from pyvc.core import And, Eq, Implies, Ite, Not, Or, SymBytes
-from pyvc.unit import unit
+from pyvc.unit import bare, unit
 
 DEX = "androguard/core/dex/__init__.py"
 META = {
@@ -113,7 +113,7 @@ class _SDI:
 @unit("C06", covers=[(DEX, "ClassManager.get_raw_string")])
 def string_lookup(U):
     m = U.mod(DEX)
-    cm = object.__new__(m.ClassManager)
+    cm = bare(m.ClassManager)
     offs = [100, 40, 77]
     setattr(cm, "_ClassManager__manage_item", {m.TypeMapItem.STRING_ID_ITEM: [_SID(o) for o in offs]})
     setattr(cm, "_ClassManager__strings_off", {40: _SDI("s40"), 100: _SDI("s100"), 77: _SDI("s77")})
